@@ -575,6 +575,6 @@ theorem C09_unserved_pipeline (nw : Network) (hn : NetHyp nw) (o : Solve.Oracle)
 theorem C09_unserved_candidates (nw : Network) (hn : NetHyp nw) {limit threshold : Option Nat} {s : Schedule}
     {last : SwapInfo} {cands : List Swaps.Candidate} (hinv : InvFU nw s)
     (h : Swaps.neighborsOf nw limit threshold s last = .ok cands) : ∀ c ∈ cands, UExact nw c.sched :=
-  fun c hc => (C11A.neighbors_invF (stepInv_invFU hn) hinv h c hc).uexact
+  fun c hc => (C11A.neighbors_invF (stepInv_invFU hn).toStepInv0 hinv h c hc).uexact
 
 end RSSched.C09U
